@@ -23,7 +23,14 @@ RULE = ("Generated (system, integrator configuration from the documented lattice
 ASSUMPTIONS = [
     "the heartbeat is called once before the first step and once after every step (it is the only observation channel between steps)",
     "for adaptive schemes 'restores the step size' means: dt after the call is the last full step taken before the "
-    "final approach to tmax began (dt_last_done at the boundary where LAST_STEP was entered), or the user's dt if there was none",
+    "final approach to tmax began (dt_last_done at the last boundary where the proposed step first reached tmax, "
+    "decided from the heartbeat's own (t, dt) records, not from the status field), or the user's dt if there was none",
+    "keep_unsynchronized=1 is only combined with exact_finish_time=0 and one direction (changing dt while the drift is "
+    "half done is outside the documented use of safe_mode=0); bitwise splitting is asserted for safe_mode=1 and for "
+    "keep_unsynchronized=1 only",
+    "IAS15 adaptive_mode=0 step collapse on systems with a noise-only acceleration component is a documented limitation "
+    "(comment in integrator_ias15.c): such runs are skipped and counted, not reported",
+    "a last step that passed tmax by rounding only may be followed by t being set to tmax (proposed fix C08-last-step-overshoot)",
     "time recurrences accepted per step: t+dt or (t+dt/2)+dt/2",
     "halting collisions are defined at step boundaries only for the non-hybrid integrators (MERCURIUS/TRACE search inside encounter sub-steps)",
 ]
@@ -32,7 +39,6 @@ CLASSES = ["contract/eft0", "contract/eft1", "contract/backward", "contract/equa
            "status/escape", "status/encounter", "status/collision", "status/noparticles", "status/stop",
            "status/success", "status/k0", "split/pieces>=2"]
 
-RUNNING, LAST_STEP = -1, -2
 FIXED_FAMS = ["whfast", "saba", "eos", "janus", "mercurius", "trace", "leapfrog"]
 
 
@@ -80,6 +86,14 @@ def trace_backward_guard(case, ctx, backward):
 
 def keeps_unsynchronized(cfg):
     return any(p.endswith("keep_unsynchronized") and v == 1 for p, v in cfg["set"])
+
+
+def mode0_fragile(cfg):
+    """IAS15 adaptive_mode=0 divides the error estimate by every single acceleration component; integrator_ias15.c
+    documents that it "might fail in cases where a particle does not experience any (physical) acceleration besides
+    roundoff errors" - e.g. the z components of a planar sub-system: the controller then collapses the step to
+    ~1e-23.  A collapse in that mode is not counted against integrate()."""
+    return cfg["family"] == "ias15" and ["ri_ias15.adaptive_mode", 0] in cfg["set"]
 
 
 def adv_candidates(t, dt):
@@ -182,6 +196,9 @@ def run_contract(case, ctx):
                 RuntimeError) as e:
             raise Violation("integrate raised %s although no exit condition is configured; %s" % (type(e).__name__, where))
         st_ = sim._status
+        if len(log) > limit[0] and mode0_fragile(cfg):
+            ctx.skip("ias15 adaptive_mode=0 step collapse (documented limitation)")
+            return
         if len(log) > limit[0]:
             raise Violation("integrate makes no progress towards tmax: %d steps taken where ~%d are implied; %s"
                             % (len(log) - 1, int(nexp) + 1, where), tail=log[-4:])
@@ -588,6 +605,9 @@ def run_status(case, ctx):
         raise Violation("integrate raised %s: %s" % (type(e).__name__, e))
     status = sim._status
     nb = len(states) - 1
+    if nb > limit and mode0_fragile(cfg):
+        ctx.skip("ias15 adaptive_mode=0 step collapse (documented limitation)")
+        return
     if nb > limit:
         raise Violation("integrate makes no progress towards tmax (%s)" % fam)
     where = "(%s, eft=%d, conds=%s, %d boundaries)" % (fam, case["eft"], kinds, nb)
@@ -666,7 +686,7 @@ def run_status(case, ctx):
 
 def subs(tier):
     return [
-        Sub("contract", run_contract, strategy=contract_case, quick=2400, thorough=150000, shards_quick=8, shards_thorough=16),
-        Sub("split", run_split, strategy=split_case, quick=800, thorough=40000, shards_quick=4, shards_thorough=16),
-        Sub("status", run_status, strategy=status_case, quick=1600, thorough=80000, shards_quick=8, shards_thorough=16),
+        Sub("contract", run_contract, strategy=contract_case, quick=2400, thorough=100000, shards_quick=8, shards_thorough=16),
+        Sub("split", run_split, strategy=split_case, quick=800, thorough=30000, shards_quick=4, shards_thorough=16),
+        Sub("status", run_status, strategy=status_case, quick=1600, thorough=60000, shards_quick=8, shards_thorough=16),
     ]
